@@ -111,10 +111,15 @@ def spec_variants():
     sp["pps"][0]["goal"]["lanelets"] = {}
     sp["pps"][0]["goal"]["states"][1]["attrs"]["position"] = ["group", [["rect", 2.0, 2.0, 30.0, 2.0, 0.0], ["circle", 1.5, 35.0, 2.5], ["poly", [[38.0, 1.0], [40.0, 1.0], [40.0, 4.0], [38.0, 4.0]]]]]
     V["directed-lights+group-goal"] = sp
+    # a ring: 1 -> 2 -> 1 (and 3 -> 3's neighbour untouched): successor / predecessor searches meet lanelets again
+    sp = speclib.base()
+    speclib.find(sp, "lanelets", 2)["succ"] = [1]
+    speclib.find(sp, "lanelets", 1)["pred"] = [2]
+    V["ring-road"] = sp
     return V
 
 
-STARTS = ["base", "directed-lights+group-goal", "goal-lanelets-unsorted", "custom-pm-trajectory", "pm-trajectory", "uncertain-states", "goal-lanelets-all", "defaults", "read-xml:base", "read-pb:base", "read-pb:custom-pm-trajectory",
+STARTS = ["base", "directed-lights+group-goal", "ring-road", "goal-lanelets-unsorted", "custom-pm-trajectory", "pm-trajectory", "uncertain-states", "goal-lanelets-all", "defaults", "read-xml:base", "read-pb:base", "read-pb:custom-pm-trajectory",
           "file:test_reading_all.xml", "file:test_reading_intersection_traffic_sign.xml", "file:test_reading_pm_state.xml", "file:USA_Lanker-1_1_T-1.xml"]
 
 
@@ -207,6 +212,7 @@ def ops():
             l.contains_points(np.array(pts)); _ = l.distance; _ = l.inner_distance; _ = l.polygon.vertices
             l.interpolate_position(float(l.distance[-1]) / 2)
             l.find_lanelet_successors_in_range(net, 30.0); l.find_lanelet_predecessors_in_range(net, 30.0)
+            l.find_lanelet_successors_in_range(net, 1000.0); l.find_lanelet_predecessors_in_range(net, 1000.0)
         net.map_obstacles_to_lanelets(sc.static_obstacles)
         for l in net.lanelets[:5]:
             for t in (0, 1, 2, 7, 50):
